@@ -215,7 +215,10 @@ def create (sch : Schema) (s : Sess) (cls : Nat) (pk : Option KeyVal) (vals : Li
     let o := s.n
     let pk1 := s.pkIx.setOpt pk o                 -- `cache_index[pkval] = obj` inside the identity map
     if lateFail then
-      -- a relationship update raised: `for undo_func in reversed(undo_funcs)` (also `cache.objects.discard(obj)`)
+      -- a relationship update raised — inside `_get_from_identity_map_` itself (the `update_reverse` of a PRIMARY-KEY attribute
+      -- that is a relationship: owner occupied 'Cannot unlink', owner deleted) or later in `__init__` — after the primary-key
+      -- index was written: `for undo_func in reversed(undo_funcs)` runs the identity map's undo closure, which therefore has to be
+      -- registered BEFORE that loop (also `cache.objects.discard(obj)`)
       ({ s with pkIx := undoIdmap pk1 pk o }, { err := some .constraint })
     else
       let ob : Obj := { cls := cls, status := .created, pk := pk, vals := vf, dbvals := fun _ => .notLoaded,
